@@ -75,7 +75,7 @@ const size_t UNREACH = std::numeric_limits<VertexIndex>::max();
 
 struct Counters {
     uint64_t graphs = 0, sources = 0, pairs = 0, distChecks = 0, predChecks = 0, allPredChecks = 0, pathsValidated = 0, allPathSets = 0, allPathsCompared = 0,
-             pathSetsSkippedTooMany = 0, unreachablePairs = 0, tiedPairs = 0, dijkstraRuns = 0, dijkstraTreeEdges = 0, zeroWeightEdges = 0, scanBoundChecks = 0,
+             wrongResultsSeenInWorkCheck = 0, pathSetsSkippedTooMany = 0, unreachablePairs = 0, tiedPairs = 0, dijkstraRuns = 0, dijkstraTreeEdges = 0, zeroWeightEdges = 0, scanBoundChecks = 0,
              maxScanRatioPermille = 0, graphsWithExpManyPaths = 0, maxShortestPathsSeenLog2 = 0, budgetsHit = 0;
 } C;
 
@@ -537,6 +537,7 @@ template <class G> std::string c12(const G &g, const WSpec &ws, uint64_t budgetO
                 uint64_t ratio = g.scans * 1000 / (n + listLen + 1);
                 C.maxScanRatioPermille = std::max(C.maxScanRatioPermille, ratio);
             }
+            if (budgetOrZero) continue; // work-bound mode (C19): the values are C12's verdict
             if (res.first.size() != n || res.second.size() != n) return "findGeodesicsDijkstra: result vectors do not have one entry per vertex";
             if (digestSink) {
                 for (auto x : res.first) {
@@ -617,10 +618,7 @@ template <class G> std::string c19bfs(const G &g, const std::vector<VertexIndex>
             auto sp = alg::findVertexPredecessors(g, s);
             ++C.scanBoundChecks;
             for (VertexIndex v = 0; v < n; ++v)
-                if (sp.first[v] != d[v]) {
-                    o << "findVertexPredecessors(source " << s << "): wrong distance for " << v;
-                    return "result: " + o.str();
-                }
+                if (sp.first[v] != d[v]) ++C.wrongResultsSeenInWorkCheck; // a wrong answer is C11's verdict, not a work-bound violation
         } catch (BudgetExceeded &b) {
             ++C.budgetsHit;
             o << "work-bound: findVertexPredecessors(source " << s << ") scanned more than V=" << b.budget << " neighbourhoods (V=" << n << ", E=" << listLen << ")";
@@ -633,10 +631,7 @@ template <class G> std::string c19bfs(const G &g, const std::vector<VertexIndex>
             ++C.scanBoundChecks;
             C.maxScanRatioPermille = std::max<uint64_t>(C.maxScanRatioPermille, g.scans * 1000 / (n + listLen + 1));
             for (VertexIndex v = 0; v < n; ++v) {
-                if (ap.first[v] != d[v]) {
-                    o << "findAllVertexPredecessors(source " << s << "): wrong distance for " << v;
-                    return "result: " + o.str();
-                }
+                if (ap.first[v] != d[v]) ++C.wrongResultsSeenInWorkCheck;
                 size_t want = 0;
                 if (v != s && d[v] != UNREACH) {
                     std::set<VertexIndex> par;
@@ -644,10 +639,7 @@ template <class G> std::string c19bfs(const G &g, const std::vector<VertexIndex>
                         if (d[u] != UNREACH && d[u] + 1 == d[v] && hasArc(adj, u, v)) par.insert(u);
                     want = par.size();
                 }
-                if (ap.second[v].size() != want) {
-                    o << "findAllVertexPredecessors(source " << s << "): " << ap.second[v].size() << " predecessors for " << v << ", expected " << want;
-                    return "result: " + o.str();
-                }
+                if (ap.second[v].size() != want) ++C.wrongResultsSeenInWorkCheck;
             }
         } catch (BudgetExceeded &b) {
             ++C.budgetsHit;
@@ -831,6 +823,7 @@ int main(int argc, char **argv) {
     R.counter("log2_of_most_shortest_paths_to_one_vertex_max") = C.maxShortestPathsSeenLog2;
     R.counter("scans_per_mille_of_V_plus_E_plus_1_max") = C.maxScanRatioPermille;
     R.count("budgets_hit", C.budgetsHit);
+    R.count("wrong_results_seen_but_left_to_C11", C.wrongResultsSeenInWorkCheck);
     R.write();
     return R.viols.empty() ? 0 : 1;
 }
